@@ -380,120 +380,7 @@ func checkC17(p *Prog, r *Report) {
 
 	// ---- R17.4 pair priority ------------------------------------------------
 	r.Rule("R17.4", "CandidatePair.priority is (2^32-1)*min(G,D) + 2*max(G,D) + (G>D ? 1 : 0) with operands widened to 64 bits before multiplying, and G is the controlling side's candidate priority (local iff this agent is controlling), so mirrored pairs get the same number on both agents.", 6)
-	pp := p.Fn("CandidatePair.priority")
-	if r.Anchor("CandidatePair.priority", pp != nil) {
-		an := p.pairPriorityAnalysis(pp)
-		for _, h := range an.helpers {
-			kind := an.kinds[h]
-			r.Check(kind != "?", "pair priority helper "+kind, p.Pos(h.Body.Pos()), "helper is "+kind+" over all orderings of its operands, result widened to uint64",
-				"helper "+h.Name+" is neither min, max nor (x>y?1:0) with 64-bit results: "+an.sigs[h])
-		}
-		// the formula
-		walkBody(pp, func(n ast.Node) bool {
-			rs, ok := n.(*ast.ReturnStmt)
-			if !ok || len(rs.Results) != 1 {
-				return true
-			}
-			if p.IsField(rs.Results[0], "CandidatePair.priorityOverride") {
-				facts, _ := p.FactsAtCall(pp, rs)
-				ok := facts.Has(func(f Fact) bool {
-					return f.Op == "truth" && f.Val && p.IsField(f.X, "CandidatePair.hasPriorityOverride")
-				})
-				r.Check(ok, "pair priority: override only when set", p.Pos(rs.Pos()), "guarded by hasPriorityOverride", "override returned without hasPriorityOverride")
-				return true
-			}
-			argsOK := true
-			lf := p.Linear(rs.Results[0], func(e ast.Expr) string {
-				if c, ok := e.(*ast.CallExpr); ok {
-					if h := an.helperOf(c); h != nil {
-						if len(c.Args) != 2 || p.Canon(c.Args[0]) == p.Canon(c.Args[1]) {
-							argsOK = false
-						}
-						a0, a1 := "", ""
-						if len(c.Args) == 2 {
-							a0, a1 = an.roleName(c.Args[0]), an.roleName(c.Args[1])
-						}
-						return an.kinds[h] + "(" + a0 + "," + a1 + ")"
-					}
-				}
-				return p.Canon(e)
-			})
-			want := map[string]string{"min(g,d)": "4294967295", "max(g,d)": "2", "gt(g,d)": "1"}
-			// min and max are symmetric in their arguments
-			norm := map[string]*big.Int{}
-			for k, v := range lf.Terms {
-				k2 := k
-				switch k {
-				case "min(d,g)":
-					k2 = "min(g,d)"
-				case "max(d,g)":
-					k2 = "max(g,d)"
-				}
-				norm[k2] = v
-			}
-			ok2 := lf.OK && argsOK && len(norm) == len(want)
-			for k, v := range want {
-				if norm[k] == nil || norm[k].String() != v {
-					ok2 = false
-				}
-			}
-			r.Check(ok2, "pair priority linear form", p.Pos(rs.Pos()), lf.String(), "linear form is "+lf.String()+" "+lf.Why+"; expected 4294967295*min(g,d) + 2*max(g,d) + gt(g,d)")
-			return true
-		})
-		// orientation of g and d
-		t := p.NewTable(pp)
-		t.Event = func(n ast.Node, _ *TEnv) []string {
-			as, ok := n.(*ast.AssignStmt)
-			if !ok || len(as.Lhs) != 1 || len(as.Rhs) != 1 {
-				return nil
-			}
-			id, ok := as.Lhs[0].(*ast.Ident)
-			if !ok {
-				return nil
-			}
-			name := an.roleName(id)
-			if name != "g" && name != "d" {
-				return nil
-			}
-			c, ok := unparen(as.Rhs[0]).(*ast.CallExpr)
-			if !ok || !strings.HasSuffix(p.CalleeName(c), ".Priority") {
-				return []string{name + "=?"}
-			}
-			sel, _ := unparen(c.Fun).(*ast.SelectorExpr)
-			side := "?"
-			if sel != nil {
-				switch {
-				case p.IsField(sel.X, "CandidatePair.Local"):
-					side = "local"
-				case p.IsField(sel.X, "CandidatePair.Remote"):
-					side = "remote"
-				}
-			}
-			return []string{name + "=" + side}
-		}
-		t.Run()
-		for _, pa := range t.Paths {
-			ctrl, ovr := "", ""
-			for _, d := range pa.Hist {
-				switch {
-				case p.IsField(d.Atom.X, "CandidatePair.iceRoleControlling"):
-					ctrl = d.Val
-				case p.IsField(d.Atom.X, "CandidatePair.hasPriorityOverride"):
-					ovr = d.Val
-				}
-			}
-			if ovr == "true" {
-				continue
-			}
-			got := strings.Join(pa.Events, ",")
-			want := "g=remote,d=local"
-			if ctrl == "true" {
-				want = "g=local,d=remote"
-			}
-			alt := strings.Join(reverseStrings(strings.Split(want, ",")), ",")
-			r.Check(got == want || got == alt, "pair priority orientation controlling="+ctrl, pa.EndPos, "G is the controlling side's priority ("+got+")", "with controlling="+ctrl+" the code takes "+got+", the formula requires "+want)
-		}
-	}
+	checkPairPriorityFormula(p, r)
 
 	// ---- R17.5 foundation inputs ---------------------------------------------
 	r.Rule("R17.5", "The foundation checksum is computed from candidate type, address and network type only.", 1)
@@ -941,4 +828,122 @@ func (p *Prog) pairPriorityAnalysis(pp *Func) *ppAnalysis {
 		return true
 	})
 	return an
+}
+
+// checkPairPriorityFormula: C17 R17.4, shared with C03 R3.10.
+func checkPairPriorityFormula(p *Prog, r *Report) {
+	pp := p.Fn("CandidatePair.priority")
+	if r.Anchor("CandidatePair.priority", pp != nil) {
+		an := p.pairPriorityAnalysis(pp)
+		for _, h := range an.helpers {
+			kind := an.kinds[h]
+			r.Check(kind != "?", "pair priority helper "+kind, p.Pos(h.Body.Pos()), "helper is "+kind+" over all orderings of its operands, result widened to uint64",
+				"helper "+h.Name+" is neither min, max nor (x>y?1:0) with 64-bit results: "+an.sigs[h])
+		}
+		// the formula
+		walkBody(pp, func(n ast.Node) bool {
+			rs, ok := n.(*ast.ReturnStmt)
+			if !ok || len(rs.Results) != 1 {
+				return true
+			}
+			if p.IsField(rs.Results[0], "CandidatePair.priorityOverride") {
+				facts, _ := p.FactsAtCall(pp, rs)
+				ok := facts.Has(func(f Fact) bool {
+					return f.Op == "truth" && f.Val && p.IsField(f.X, "CandidatePair.hasPriorityOverride")
+				})
+				r.Check(ok, "pair priority: override only when set", p.Pos(rs.Pos()), "guarded by hasPriorityOverride", "override returned without hasPriorityOverride")
+				return true
+			}
+			argsOK := true
+			lf := p.Linear(rs.Results[0], func(e ast.Expr) string {
+				if c, ok := e.(*ast.CallExpr); ok {
+					if h := an.helperOf(c); h != nil {
+						if len(c.Args) != 2 || p.Canon(c.Args[0]) == p.Canon(c.Args[1]) {
+							argsOK = false
+						}
+						a0, a1 := "", ""
+						if len(c.Args) == 2 {
+							a0, a1 = an.roleName(c.Args[0]), an.roleName(c.Args[1])
+						}
+						return an.kinds[h] + "(" + a0 + "," + a1 + ")"
+					}
+				}
+				return p.Canon(e)
+			})
+			want := map[string]string{"min(g,d)": "4294967295", "max(g,d)": "2", "gt(g,d)": "1"}
+			// min and max are symmetric in their arguments
+			norm := map[string]*big.Int{}
+			for k, v := range lf.Terms {
+				k2 := k
+				switch k {
+				case "min(d,g)":
+					k2 = "min(g,d)"
+				case "max(d,g)":
+					k2 = "max(g,d)"
+				}
+				norm[k2] = v
+			}
+			ok2 := lf.OK && argsOK && len(norm) == len(want)
+			for k, v := range want {
+				if norm[k] == nil || norm[k].String() != v {
+					ok2 = false
+				}
+			}
+			r.Check(ok2, "pair priority linear form", p.Pos(rs.Pos()), lf.String(), "linear form is "+lf.String()+" "+lf.Why+"; expected 4294967295*min(g,d) + 2*max(g,d) + gt(g,d)")
+			return true
+		})
+		// orientation of g and d
+		t := p.NewTable(pp)
+		t.Event = func(n ast.Node, _ *TEnv) []string {
+			as, ok := n.(*ast.AssignStmt)
+			if !ok || len(as.Lhs) != 1 || len(as.Rhs) != 1 {
+				return nil
+			}
+			id, ok := as.Lhs[0].(*ast.Ident)
+			if !ok {
+				return nil
+			}
+			name := an.roleName(id)
+			if name != "g" && name != "d" {
+				return nil
+			}
+			c, ok := unparen(as.Rhs[0]).(*ast.CallExpr)
+			if !ok || !strings.HasSuffix(p.CalleeName(c), ".Priority") {
+				return []string{name + "=?"}
+			}
+			sel, _ := unparen(c.Fun).(*ast.SelectorExpr)
+			side := "?"
+			if sel != nil {
+				switch {
+				case p.IsField(sel.X, "CandidatePair.Local"):
+					side = "local"
+				case p.IsField(sel.X, "CandidatePair.Remote"):
+					side = "remote"
+				}
+			}
+			return []string{name + "=" + side}
+		}
+		t.Run()
+		for _, pa := range t.Paths {
+			ctrl, ovr := "", ""
+			for _, d := range pa.Hist {
+				switch {
+				case p.IsField(d.Atom.X, "CandidatePair.iceRoleControlling"):
+					ctrl = d.Val
+				case p.IsField(d.Atom.X, "CandidatePair.hasPriorityOverride"):
+					ovr = d.Val
+				}
+			}
+			if ovr == "true" {
+				continue
+			}
+			got := strings.Join(pa.Events, ",")
+			want := "g=remote,d=local"
+			if ctrl == "true" {
+				want = "g=local,d=remote"
+			}
+			alt := strings.Join(reverseStrings(strings.Split(want, ",")), ",")
+			r.Check(got == want || got == alt, "pair priority orientation controlling="+ctrl, pa.EndPos, "G is the controlling side's priority ("+got+")", "with controlling="+ctrl+" the code takes "+got+", the formula requires "+want)
+		}
+	}
 }
